@@ -8,7 +8,7 @@ EXPLANATION = ("R-NUM encoding of the configured timeout (shared with C08); R-SI
                "R-EXIT timeout_handler resumes with TimedOut only behind a non-null event_data and a taken coroutine; R-PAIR Drop for "
                "IoData disarms, deregisters, then retires the EventData (delayed free), the retired data is freed by the owning "
                "selector after the ready list; R-SIB cancel registration of the io sources (publish, register, re-check)")
-EXPLANATION_2 = ("read/write timeout direction agreement (setters store their argument into their own direction on success paths, getters read it, try_clone inherits both, every io source is constructed with its own direction's timeout); result-consumption rules imported from C15/C17")
+EXPLANATION_2 = ("read/write timeout direction agreement (setters store their argument into their own direction on success paths, getters read it, try_clone inherits both, every io source is constructed with its own direction's timeout); result-consumption rules imported from C15/C17; select() returns a fresh time to the next io timer (F29); set_io before store_co (F34, known finding)")
 NOT_DECIDED = "elapsed time; data-vs-deadline races in the kernel; the non-atomic timer RefCell / Entry fields touched from several threads"
 CONFIGS_QUICK = ["default"]
 CONFIGS_THOROUGH = ["default", "nosteal"]
@@ -132,7 +132,9 @@ def check(ctx):
         short = adt.rsplit("::", 1)[-1]
         shared.slot_waiter(ctx, f.id, reg, Call(re.escape(C) + "::is_canceled", transitive=False), call_true(re.escape(C) + "::is_canceled"),
                            Call(re.escape(C) + "::cancel", transitive=False), "io-cancel-registration:" + short, "%s::subscribe" % short, "is_canceled() is true")
-        ctx.order(f.id, Call(AO + "store", on=ED + ".co", transitive=True), reg, "io-publish-before-register:" + short,
+        if shared.recheck_takes_own_slot(ctx, f):
+            ctx.ob("R-SIB", f.id, "io-publish-before-register:" + short, True, "the re-check takes the coroutine out of the io slot itself: the registration does not have to follow the publication", f.where(), nontrivial=False)
+        else: ctx.order(f.id, Call(AO + "store", on=ED + ".co", transitive=True), reg, "io-publish-before-register:" + short,
                   "%s::subscribe publishes the coroutine before it registers the io with the cancel data (cancel consumes the registration first and then looks for the coroutine)" % short, rule="R-SIB")
     if n < 9 and any(k.startswith("<may::io::sys::cancel::CancelIoImpl as ") for k in ctx.prog.fns):
         ctx.missing("R-SIB", ES, "io-cancel-registration", "expected ≥9 cancellable io sources, found %d" % n)
@@ -227,3 +229,4 @@ def check(ctx):
     shared.selector_serves_timeout_wakeups(ctx)
     ctx.import_rules("C17", r"^drop-order/")
     shared.sleep_relative_to_fresh_clock(ctx)
+    shared.cancel_registered_before_publish(ctx, only=r"may::io::")
